@@ -18,7 +18,7 @@
 
    "leaks nothing" is not a statement about the model; it is checked on the
    real code only (harness: blocks outstanding after teardown, ASan). *)
-From DV Require Import Spec.OomSpec Proofs.OomGeneric Proofs.OomLists Proofs.OomHandlers Proofs.OomMain Proofs.OomRefute Proofs.OomTight Proofs.OomClean Spec.OomStringSpec Proofs.OomString.
+From DV Require Import Spec.OomSpec Proofs.OomGeneric Proofs.OomLists Proofs.OomHandlers Proofs.OomMain Proofs.OomRefute Proofs.OomTight Proofs.OomClean Spec.OomStringSpec Proofs.OomString Proofs.OomHello.
 Local Open Scope N_scope.
 
 (* ---- the literal statement and its refutation ------------------------------------------------ *)
@@ -173,26 +173,40 @@ Theorem C14_tight_hello : forall b c cn,
 Proof. exact tight_hello. Qed.
 Print Assumptions C14_tight_hello.
 
-(* finding F14.4: one allocation earlier (the loginfo string of bus_connection_complete) the connection does
-   not even become active, but stays counted against max_connections_per_user *)
-Theorem C14_tight_hello_uid_count : forall b c cn,
+(* max_connections_per_user (finding F14.4, fixed by c7c9e6b): whatever fails, a first Hello that reports
+   NoMemory either changed nothing at all or made the connection active and counted it - the per-user
+   count never moves without the activation *)
+Theorem C14_hello_count_follows_activation : forall b c cn F b',
   find_conn (b_conns b) c = Some cn -> c_active cn = false -> (b_maxconns b <=? b_uidcount b) = false ->
-  exists b', step_oom 8 b (EvHello c) = OOk b' [(c, MError ENoMemory)] /\
-             b_uidcount b' = b_uidcount b + 1 /\ b_conns b' = b_conns b /\ ~ same_state b' b.
-Proof. exact tight_hello_uid_count. Qed.
-Print Assumptions C14_tight_hello_uid_count.
+  lookup (b_services b) (KU c) = None ->
+  step_f F b (EvHello c) = OOk b' [(c, MError ENoMemory)] ->
+  b' = b \/ b' = completed b c.
+Proof. exact hello_count_follows_activation. Qed.
+Print Assumptions C14_hello_count_follows_activation.
 
-(* ... so that with max_connections_per_user = 3 and two clients registered, the third one's retried Hello is refused *)
-Theorem C14_hello_uid_count_refuted :
-  exists b b', run (init_bus_full 512 512 128 3) [EvConnect; EvHello 0; EvConnect; EvHello 1; EvConnect] = Some b /\
-               step_oom 8 b (EvHello 2) = OOk b' [(2, MError ENoMemory)] /\
-               step b' (EvHello 2) = OOk b' [(2, MError ELimitsExceeded)] /\
-               (exists b2 o, step b (EvHello 2) = OOk b2 o /\ In (2, MHelloReply 2) o).
-Proof.
-  do 2 eexists. split; [vm_compute; reflexivity|]. split; [vm_compute; reflexivity|]. split; [vm_compute; reflexivity|].
-  do 2 eexists. split; [vm_compute; reflexivity|]. left; reflexivity.
-Qed.
-Print Assumptions C14_hello_uid_count_refuted.
+(* ... so a failed Hello that left the connection inactive is retried as if it had never been attempted *)
+Theorem C14_hello_not_active_unchanged : forall b c cn F b',
+  find_conn (b_conns b) c = Some cn -> c_active cn = false -> (b_maxconns b <=? b_uidcount b) = false ->
+  lookup (b_services b) (KU c) = None ->
+  step_f F b (EvHello c) = OOk b' [(c, MError ENoMemory)] -> is_active b' c = false ->
+  b' = b /\ step b' (EvHello c) = step b (EvHello c).
+Proof. exact hello_not_active_unchanged. Qed.
+Print Assumptions C14_hello_not_active_unchanged.
+
+(* the former witness of F14.4 (max_connections_per_user = 3, two clients registered, the third says Hello):
+   at EVERY failing index the count is the number of active connections, and a Hello that left the
+   connection inactive is followed by a successful retry *)
+Theorem C14_hello_uid_count_restored :
+  exists b, run (init_bus_full 512 512 128 3) [EvConnect; EvHello 0; EvConnect; EvHello 1; EvConnect] = Some b /\
+            forallb (fun k => match step_oom k b (EvHello 2) with
+                              | OOk b' _ =>
+                                  (b_uidcount b' =? (if is_active b' 2 then 3 else 2)) &&
+                                  (is_active b' 2 ||
+                                   match step b' (EvHello 2) with OOk b2 _ => is_active b2 2 | OStop => false end)
+                              | OStop => false
+                              end) (nseq 64) = true.
+Proof. eexists. split; [vm_compute; reflexivity|]. vm_compute. reflexivity. Qed.
+Print Assumptions C14_hello_uid_count_restored.
 
 (* ==== library side: DBusString (dbus/dbus-string.c) and the header setter built on it ==================
    Model Oom.DString (contents + allocated + the one fallible realloc, every primitive returning the
